@@ -328,7 +328,7 @@ GOOD = ('report', 'diag', 'usage')
 def evaluate(c):
     base = BASES[c['base']]
     argv = base
-    devs = [MENU[i] for i in c['devs']]
+    devs = [tuple(d) if isinstance(d, (list, tuple)) else MENU[d] for d in c['devs']]       # entries themselves (replays survive menu changes)
     for opt, val in devs:
         argv = apply_dev(argv, opt, val)
     cls = run(argv)
@@ -361,7 +361,7 @@ def cases(tier, seed):
     for b in BASES:
         yield dict(base=b, devs=[])
         for i in range(len(MENU)):
-            yield dict(base=b, devs=[i])
+            yield dict(base=b, devs=[list(MENU[i])])
     if tier != 'thorough':
         # the two listed findings that need a pair of deviations are part of the quick tier too
         idx = {}
@@ -369,7 +369,7 @@ def cases(tier, seed):
             idx.setdefault(tuple(ov), i)
         for b, x, y in (('geo', ('-a', '3,1,0,360,.001'), ('--geo-rotate', '1,0,0,-100')),
                         ('lds', ('--frequency-steps', '50'), ('-w', '4,0,0,0,0,0,1,5'))):
-            yield dict(base=b, devs=sorted([idx[x], idx[y]]))
+            yield dict(base=b, devs=[list(MENU[k]) for k in sorted([idx[x], idx[y]])])
     if tier == 'thorough':
         # pairs over the menu without the extreme-magnitude entries (1e300 / 1e-300): those are covered as single
         # deviations (most are listed findings) and would only multiply the same overflow under other names
@@ -378,4 +378,4 @@ def cases(tier, seed):
             for i, j in itertools.combinations(calm, 2):
                 if MENU[i][0] == MENU[j][0] and MENU[i][1] is not None:
                     continue     # both would replace the same option: equals a single deviation
-                yield dict(base=b, devs=[i, j])
+                yield dict(base=b, devs=[list(MENU[i]), list(MENU[j])])
